@@ -62,6 +62,8 @@ pub enum EvKind {
     ProcExit(usize),
     FsDeliver { watcher: usize, paths: Vec<std::path::PathBuf> },
     Plan(usize),
+    /// a timer (timeout / sleep) expires; when is the scheduler's choice
+    Timer(usize),
 }
 
 pub struct ExtEvent {
@@ -102,6 +104,8 @@ pub struct Rt {
     pub in_callback: bool,
     pub blocked_workers: u32,
     pub live_closure_threads: usize,
+    /// timers: (fired, waker of the waiting future)
+    pub timers: Vec<(bool, Option<Waker>)>,
 }
 
 thread_local! {
@@ -212,6 +216,7 @@ impl Rt {
             in_callback: false,
             blocked_workers: 0,
             live_closure_threads: 0,
+            timers: vec![],
         }
     }
 
@@ -372,6 +377,7 @@ impl Rt {
         match &ev.kind {
             EvKind::ProcExit(pid) => self.procs.exit_enabled(*pid, self),
             EvKind::FsDeliver { .. } => true,
+            EvKind::Timer(_) => true,
             EvKind::Plan(i) => !self.plan_fired[*i] && (self.forced == Some(*i) || self.gate_open(&self.plan.events[*i].gate, *i)),
         }
     }
@@ -418,6 +424,32 @@ impl Rt {
             self.evv("preempt", site);
         }
         v == 1
+    }
+
+    /// A yes/no decision taken inside synchronous code (no task is pre-empted): used where the
+    /// real system has another thread that may or may not act right now.
+    pub fn decide_inline(&mut self, site: &str) -> bool {
+        if !self.active {
+            return false;
+        }
+        self.bump_decision();
+        let v = self.choose(2, |rt| match rt.plan.strategy.clone() {
+            Strategy::Random { .. } => (rt.rng.below(1000) < 300) as usize,
+            Strategy::Pct { .. } => (rt.rng.below(1000) < 150) as usize,
+            _ => 0,
+        });
+        if v == 1 {
+            self.evv("inline-decision", site);
+        }
+        v == 1
+    }
+
+    /// Index of an enabled workload (fs) plan event, if any.
+    pub fn enabled_plan_fs_event(&self) -> Option<usize> {
+        self.events.iter().position(|e| match &e.kind {
+            EvKind::Plan(i) => self.event_enabled(e) && matches!(self.plan.events[*i].kind, PlanEventKind::Fs { .. }),
+            _ => false,
+        })
     }
 
     pub fn note_parked(&mut self, what: &str) {
